@@ -5,6 +5,7 @@ pub mod c02_c13;
 pub mod c06;
 pub mod c16;
 pub mod consist_lab;
+pub mod dispatch_lab;
 pub mod pt_props;
 pub mod ptlab;
 pub mod setspeed_lab;
@@ -22,6 +23,8 @@ pub fn get(id: &str) -> Option<Box<dyn Prop>> {
         "C16" => Some(Box::new(c16::C16)),
         "C06" => Some(Box::new(c06::C06)),
         "C03" | "C07" | "C11" | "C12" | "C14" => Some(Box::new(train_props::TrainProp { which: match id { "C03" => "C03", "C07" => "C07", "C11" => "C11", "C12" => "C12", _ => "C14" } })),
+        "C04" => Some(Box::new(dispatch_lab::DispatchProp { which: "C04" })),
+        "C05" => Some(Box::new(dispatch_lab::DispatchProp { which: "C05" })),
         _ => None,
     }
 }
